@@ -624,8 +624,40 @@ def stream_decode(ctx, texts):
     st.exhaustive = False
 
 
+def stream_reparse(ctx):
+    """jsonParse must return a FRESH value every time: parse a text, mutate the result through the library, parse the same
+    text again - the second result must still equal the original value and be a different object (a parse cache that
+    hands out the same mutable list/dict breaks the round trip on the second call)."""
+    impl = fw.impl()
+    lib = impl['library'].SCRIPT_FUNCTIONS
+    vcmp = impl['value'].value_compare
+    rng = ctx.rng('reparse')
+    st = ctx.stream('reparse', 'arrays/objects serialised, parsed, the parsed value mutated (arrayPush/objectSet/arraySet), then the '
+                               'same text parsed again; non-trivial = container with at least one element')
+    for i in range(ctx.scale(300, 5000)):
+        if rng.random() < 0.5:
+            v = [rng.choice([1, 2.5, 'a', None, True, [1], {'k': 1}]) for _ in range(rng.randint(0, 4))]
+        else:
+            v = {rng.choice(['a', 'b', 'c.0,', 'k']): rng.choice([1, 'x', None, [2]]) for _ in range(rng.randint(0, 3))}
+        ind = rng.choice([None, None, 2])
+        text = lib['jsonStringify']([v] if ind is None else [v, ind], None)
+        st.case({'value': text, 'indent': ind}, nontrivial=len(v) > 0, tags=['array' if isinstance(v, list) else 'object'])
+        first = lib['jsonParse']([text], None)
+        if isinstance(first, list):
+            lib['arrayPush']([first, 'extra'], None)
+            if first:
+                lib['arraySet']([first, 0, 'changed'], None)
+        elif isinstance(first, dict):
+            lib['objectSet']([first, 'extra', 1], None)
+        second = lib['jsonParse']([text], None)
+        if second is first or vcmp(second, v) != 0:
+            ctx.witness('reparse-fresh', {'text': text}, 'a fresh value equal to the original', repr(second)[:300])
+            return
+
+
 def streams(ctx):
     pool = {}
+    stream_reparse(ctx)
     texts = stream_json(ctx, pool)
     stream_strings(ctx, pool)
     stream_cleanup(ctx, texts)
